@@ -297,9 +297,13 @@ impl Updater {
         let write_pass = self.page_cache.new_write_pass();
         let worker_passes = write_pass.split_n(shard_regions);
 
-        let (worker_tx, worker_rx) = crossbeam_channel::bounded(num_workers);
+        // One channel per worker, in shard (= key range) order: `UpdateHandle::join` relies on
+        // visiting the workers' outputs in that order when assigning witnessed operations to paths.
+        let mut worker_rx = Vec::with_capacity(num_workers);
 
         for write_pass in worker_passes.into_iter() {
+            let (worker_tx, rx) = crossbeam_channel::bounded(1);
+            worker_rx.push(rx);
             let command = UpdateCommand {
                 shared: shared.clone(),
                 write_pass: write_pass.into_envelope(),
@@ -314,14 +318,10 @@ impl Updater {
                 warm_page_set: warm_page_set.clone(),
                 command,
             };
-            spawn_updater::<H>(&self.worker_tp, params, worker_tx.clone());
+            spawn_updater::<H>(&self.worker_tp, params, worker_tx);
         }
 
-        Ok(UpdateHandle {
-            shared,
-            worker_rx,
-            num_workers,
-        })
+        Ok(UpdateHandle { shared, worker_rx })
     }
 
     pub fn prove<H: HashAlgorithm>(&self, key_path: KeyPath) -> std::io::Result<PathProof> {
@@ -370,8 +370,8 @@ impl Updater {
 /// A handle for waiting on the results of a commit operation.
 pub struct UpdateHandle {
     shared: Arc<UpdateShared>,
-    worker_rx: Receiver<TaskResult<std::io::Result<WorkerOutput>>>,
-    num_workers: usize,
+    // one receiver per worker, ordered by the workers' key ranges.
+    worker_rx: Vec<Receiver<TaskResult<std::io::Result<WorkerOutput>>>>,
 }
 
 impl UpdateHandle {
@@ -392,8 +392,8 @@ impl UpdateHandle {
         let mut path_proof_offset = 0;
         let mut witnessed_start = 0;
 
-        for _ in 0..self.num_workers {
-            let output = join_task(&self.worker_rx)?;
+        for worker_rx in &self.worker_rx {
+            let output = join_task(worker_rx)?;
 
             if let Some(root) = output.root {
                 assert!(new_root.is_none());
